@@ -623,6 +623,23 @@ class Normaliser:
                     ok_src = False
         if not ok_src:
             return False
+        # it must really be a retry loop: the failed attempt feeds the next one and the call is reached again from its own Err arm
+        # (a single attempt whose failure is ignored loses the update under contention - that is not a fetch_add)
+        retried = any(d[0] == 'stmt' for d in self._all_defs(bj, self._root_copy(bj, el['l'])))
+        seen_ = set(); work_ = [t['t']]
+        while work_:
+            y = work_.pop()
+            if y in seen_ or y is None or y >= len(bj['blocks']):
+                continue
+            seen_.add(y)
+            ty_ = bj['blocks'][y]['term']
+            for key_ in ('t', 'otherwise'):
+                if isinstance(ty_.get(key_), int):
+                    work_.append(ty_[key_])
+            for arm_ in ty_.get('arms', []):
+                work_.append(arm_[1])
+        if not retried or x not in seen_:
+            return False
         line = t.get('line', 0)
         old = self._new_local(bj, 'usize', line)
         fn_name = 'std::sync::atomic::Atomic::<usize>::' + op_
